@@ -82,8 +82,35 @@ def worker(args):
                     out.append(("pair", bytes(x[:a]), bytes(x[a:]) + bytes(prng.getrandbits(8) for _ in range(ml))))
         return out
 
+    def modrm_sweep():
+        """x86 / x64: every specification followed by each class of ModRM / SIB / displacement bytes (distinct filler bytes,
+        so that a byte taken from the wrong position shows), bare and behind a prefix, complete and cut one byte short"""
+        out = []
+        if name not in ("x86_x86", "x64_x64"):
+            return out
+        e = dis.endian()
+        forms = [bytes([0x04, 0x25]), bytes([0x44, 0x24]), bytes([0x84, 0x8D]), bytes([0x05]), bytes([0x45]), bytes([0x85]), bytes([0xC1]),
+                 bytes([0x04, 0x8D]), bytes([0x40]), bytes([0x00])]
+        filler = bytes([0x11, 0x22, 0x33, 0x44, 0x55, 0x66, 0x77, 0x88, 0x99, 0xAB, 0xCD, 0xEF, 0x13, 0x57])
+        for s in specs:
+            fixed = c04.spec_bytes(rng, s, e, ml)
+            nfix = max(1, (s.mask.ival.bit_length() + 7) // 8) if s.size == 0 else len(fixed)
+            op = fixed[:nfix]
+            for f in rng.sample(forms, 3):
+                f2 = bytes([(f[0] & 0xC7) | (rng.randrange(8) << 3)]) + f[1:]
+                body = op + f2 + filler
+                pre = b""
+                c = rng.random()
+                if c < 0.3:
+                    pre = bytes([rng.choice(c04.X86_PREFIXES)])
+                elif c < 0.5 and name == "x64_x64":
+                    pre = bytes([0x40 + rng.randrange(16)])
+                out.append(("modrm", pre + body))
+        return out
+
     with isa.ModeCtx(dis, k):
         inputs = [(kd, b, None) for kd, b in c04.gen_inputs(rng, name, dis, specs, nrandom, nspec)] + pair_inputs()
+        inputs += [(kd, b, None) for kd, b in modrm_sweep()]
         for kind, b, forced in inputs:
             res["n"] += 1
             o = d(b)
@@ -96,6 +123,10 @@ def worker(args):
                 report("not-a-prefix", o, b, {"consumed": n})
                 continue
             res["checks"] += 1
+            if n > 1:
+                ot = d(b[:n - 1])
+                if ot is not None and "raised" not in ot and len(bytes.fromhex(ot["bytes"])) >= n:
+                    report("decodes-beyond-input", ot, b[:n - 1], {"consumed": len(bytes.fromhex(ot["bytes"])), "supplied": n - 1})
             o2 = d(b[:n])
             if not same(o, o2):
                 report("exact-bytes-differ", o, b, {"consumed": n, "redecoded": o2})
